@@ -771,3 +771,37 @@ mutant('RA-C16-reclaim-reserved-returns-all', ['C16'], ['C16.RA|amount|prioritiz
        'reclaim_reserved_capacity hands back the capacity backing buffered DATA as well',
        [(S + 'prioritize.rs', '''            let reserved =
                 stream.send_flow.available().as_size() - stream.buffered_send_data as WindowSize;''', '''            let reserved = stream.send_flow.available().as_size();''')])
+
+# ---------------------------------------------------------------- error discipline (RD), direction words / namesakes (RL), Stream::new (RN)
+mutant('RD-C09-recv-data-error-dropped', ['C09'], ['C09.RD|errdisc|proto::connection::DynConnection::recv_frame'],
+       'the connection ignores what Streams::recv_data reports (a connection error is no longer acted on)',
+       [('src/proto/connection.rs', 'self.streams.recv_data(frame)?;', 'let _ = self.streams.recv_data(frame);')])
+mutant('RD-C03-settings-window-overflow-dropped', ['C03', 'C13'], ['RD|errdisc|proto::streams::recv::Recv::apply_local_settings'],
+       'apply_local_settings: an overflowing window increase is swallowed with .ok()',
+       [(S + 'recv.rs', '''                            .inc_window(inc)
+                            .map_err(proto::Error::library_go_away)?;''', '''                            .inc_window(inc)
+                            .map_err(proto::Error::library_go_away).ok();''')])
+mutant('RD-C18-decode-frame-error-dropped', ['C18'], ['C18.RD|errdisc'],
+       'Codec::buffer error from start_send is dropped',
+       [('src/codec/mod.rs', 'Codec::buffer(&mut self, item)?;', 'let _ = Codec::buffer(&mut self, item);')])
+mutant('RL-direction-current-max-send', ['C05'], ['C05.RL|direction|proto::streams::streams::Streams::current_max_send_streams'],
+       'Streams::current_max_send_streams reports the receive-side limit',
+       [(S + 'streams.rs', '''    pub fn current_max_send_streams(&self) -> usize {
+        let me = self.inner.lock().unwrap();
+        me.counts.max_send_streams()''', '''    pub fn current_max_send_streams(&self) -> usize {
+        let me = self.inner.lock().unwrap();
+        me.counts.max_recv_streams()''')])
+mutant('RL-direction-available-recv-capacity', ['C03'], ['C03.RL|direction|proto::streams::streams::OpaqueStreamRef::available_recv_capacity'],
+       'available_recv_capacity reads the send window',
+       [(S + 'streams.rs', 'stream.recv_flow.available().into()', 'stream.send_flow.available().into()')])
+mutant('RL-namesake-is-pending-open', ['C05'], ['C05.RL|namesake|proto::streams::streams::StreamRef::is_pending_open'],
+       'StreamRef::is_pending_open answers is_pending_send',
+       [(S + 'streams.rs', 'me.store.resolve(self.opaque.key).is_pending_open', 'me.store.resolve(self.opaque.key).is_pending_send')])
+mutant('RN-stream-new-windows-crossed', ['C03', 'C02'], ['RN|stream-new|inc_window'],
+       'Stream::new credits the send flow with the initial receive window',
+       [(S + 'stream.rs', '''        recv_flow
+            .inc_window(init_recv_window)''', '''        send_flow
+            .inc_window(init_recv_window)'''),
+        (S + 'stream.rs', '''        send_flow
+            .inc_window(init_send_window)''', '''        recv_flow
+            .inc_window(init_send_window)''')])
